@@ -1,13 +1,14 @@
 (* Props/C08.v — property C08 (accounting-record files: every record once, in time order):
    statements only; every proof is `exact <lemma>`. *)
-From Coq Require Import List NArith ZArith Bool Sorted Permutation.
+From Coq Require Import List NArith ZArith Bool Sorted Permutation String.
 Import ListNotations.
 From S4.Base Require Import Bytes.
 From S4.Spec Require Import RecordsSpec.
-From S4.Model Require Import Records.
+From S4.Model Require Import Records RecordRender LayoutDetect.
 From S4.Gen Require Import FixedStructTables.
-From S4.Proofs Require Import StableSort KeyedMap RecordsProofs FixedStructTablesOk.
+From S4.Proofs Require Import StableSort KeyedMap RecordsProofs RecordRenderProofs LayoutDetectProofs FixedStructTablesOk.
 Open Scope N_scope.
+Open Scope list_scope.
 
 (* The repaired reader (map keyed by (time value, file offset)): for every entry size > 0,
    every window and every sequence of time values — any order, duplicates, nulls interleaved —
@@ -143,3 +144,346 @@ Example C08_example_K1_distinct :
   /\ records_out_K1 None None 292 [(5, 0); (0, 0); (3, 1)]%Z = WDone [584; 0].
 Proof. exact records_out_K1_distinct_example. Qed.
 Print Assumptions C08_example_K1_distinct.
+
+(* ================================================================== the printed text of a record *)
+(* "Each printed line shows that record's own field values and nothing else."
+   The model of FixedStruct::as_bytes writes, through a cursor into the printer's buffer, the
+   sequence of items regenerated from the source of as_bytes for the record's layout.  For every
+   layout of the table, every entry (bytes < 256) and every f32 formatter producing at most 64
+   bytes it returns Ok with exactly: the concatenation, in the layout's order, of the texts of the
+   items (literal labels and `value` texts), then "\n\0" — never truncated. *)
+Theorem C08_as_bytes_is_render : forall f32txt n items e,
+  In (n, items) fixedstruct_render -> (forall b, (length (f32txt b) <= 64)%nat) -> bytes_ok e ->
+  as_bytes f32txt print_buffer_cap items as_bytes_tail e = ROk (render f32txt items as_bytes_tail e).
+Proof. exact table_as_bytes_is_render. Qed.
+Print Assumptions C08_as_bytes_is_render.
+
+Example C08_as_bytes_example :
+  In (s2b "Fs_Linux_x86_Utmpx", lx86_items) fixedstruct_render /\
+  bytes_ok lx86_utmpx_full_user /\
+  as_bytes f32_int_text print_buffer_cap lx86_items as_bytes_tail lx86_utmpx_full_user
+  = ROk (render f32_int_text lx86_items as_bytes_tail lx86_utmpx_full_user).
+Proof. exact as_bytes_example. Qed.
+Print Assumptions C08_as_bytes_example.
+
+Theorem C08_f32_int_text_len : forall b, (length (f32_int_text b) <= 64)%nat.
+Proof. exact f32_int_text_len. Qed.
+Print Assumptions C08_f32_int_text_len.
+
+(* every item's text is a function of the bytes of its own field [off, off + width) of the entry *)
+Theorem C08_item_text_local : forall f32txt it e1 e2,
+  slice (fst (item_span it)) (snd (item_span it)) e1 = slice (fst (item_span it)) (snd (item_span it)) e2 ->
+  item_text f32txt it e1 = item_text f32txt it e2.
+Proof. exact item_text_local. Qed.
+Print Assumptions C08_item_text_local.
+
+(* ... and every printed field lies inside the entry; the table obligations (readable back, numbers
+   never contain their stop byte, the longest line fits the buffer) hold for every row *)
+Theorem C08_render_rows_ok : forallb render_row_ok fixedstruct_render = true.
+Proof. exact render_rows_ok. Qed.
+Print Assumptions C08_render_rows_ok.
+
+Theorem C08_render_covers_layouts :
+  forallb (fun l => match assoc (l_name l) fixedstruct_render with Some _ => true | None => false end)
+          fixedstruct_layouts = true
+  /\ length fixedstruct_render = length fixedstruct_layouts.
+Proof. exact render_covers_layouts. Qed.
+Print Assumptions C08_render_covers_layouts.
+
+(* nothing from neighbouring records: the line of the record at [fo, fo + sz) depends on those
+   bytes of the file only *)
+Theorem C08_render_local : forall f32txt items tail fo sz file1 file2,
+  slice fo sz file1 = slice fo sz file2 ->
+  render f32txt items tail (slice fo sz file1) = render f32txt items tail (slice fo sz file2).
+Proof. exact render_local. Qed.
+Print Assumptions C08_render_local.
+
+(* C strings: at most the field's width ... *)
+Theorem C08_cstr_text_length : forall off w s e, (length (cstr_text off w s e) <= N.to_nat w)%nat.
+Proof. exact cstr_text_length. Qed.
+Print Assumptions C08_cstr_text_length.
+
+(* ... a function of the field's bytes alone, whatever follows the field ... *)
+Theorem C08_cstr_text_local : forall off w s e1 e2,
+  slice off w e1 = slice off w e2 -> cstr_text off w s e1 = cstr_text off w s e2.
+Proof. exact cstr_text_local. Qed.
+Print Assumptions C08_cstr_text_local.
+
+(* ... a field filled to its width (ut_user of exactly 32 bytes, ut_host of 256) is printed whole
+   and does not run on into the next field ... *)
+Theorem C08_cstr_text_full_width : forall off w s e,
+  ~ In 0 (slice off w e) -> cstr_text off w s e = slice off w e.
+Proof. exact cstr_text_full_width. Qed.
+Print Assumptions C08_cstr_text_full_width.
+
+(* ... and a field with a NUL is printed up to it *)
+Theorem C08_cstr_text_until_nul : forall off w s e a b,
+  slice off w e = a ++ 0 :: b -> ~ In 0 a -> cstr_text off w s e = a.
+Proof. exact cstr_text_until_nul. Qed.
+Print Assumptions C08_cstr_text_until_nul.
+
+Example C08_full_width_user_example :
+  render f32_int_text lx86_items as_bytes_tail lx86_utmpx_full_user
+  = s2b "ut_type USER_PROCESS ut_pid 1000 ut_line 'pts/3' ut_id 'ts/3' ut_user 'firstname.lastname@corporate.org' ut_host 'gateway.corp.example' e_termination 0 e_exit 0 ut_session '3' ut_xtime 1700000000.5 ut_addr 0.0.0.0"
+    ++ [10; 0]
+  /\ items_clean f32_int_text lx86_items as_bytes_tail lx86_utmpx_full_user = true
+  /\ length lx86_utmpx_full_user = 384%nat.
+Proof. exact full_width_user_example. Qed.
+Print Assumptions C08_full_width_user_example.
+
+(* reading a line back: for every layout and every entry whose values are clean (no string or f32
+   text contains the byte that follows it in the line: the quote, for sockaddr fields the quote or
+   the newline) the parser returns the texts of all items in order ... *)
+Theorem C08_parse_render : forall f32txt n items e,
+  In (n, items) fixedstruct_render ->
+  items_clean f32txt items as_bytes_tail e = true ->
+  parse_items items as_bytes_tail (render f32txt items as_bytes_tail e) = Some (var_texts f32txt items e).
+Proof. exact table_parse_render. Qed.
+Print Assumptions C08_parse_render.
+
+(* ... so two records with clean values that print the same line agree on the text of every shown
+   field (contrapositive: records that differ in a shown field print different lines) ... *)
+Theorem C08_render_injective : forall f32txt n items e1 e2,
+  In (n, items) fixedstruct_render ->
+  items_clean f32txt items as_bytes_tail e1 = true -> items_clean f32txt items as_bytes_tail e2 = true ->
+  render f32txt items as_bytes_tail e1 = render f32txt items as_bytes_tail e2 ->
+  forall it, In it items -> is_var it = true -> item_text f32txt it e1 = item_text f32txt it e2.
+Proof. exact table_render_injective. Qed.
+Print Assumptions C08_render_injective.
+
+(* ... the text of an integer field determines the integer (numtoa is injective) ... *)
+Theorem C08_num_text_value : forall f32txt off sz sg e,
+  dec_signed_val (item_text f32txt (RNum off sz sg) e) = field_int off sz sg e.
+Proof. exact num_text_value. Qed.
+Print Assumptions C08_num_text_value.
+
+(* ... and the cleanliness condition concerns the strings and the f32 text only: integers, type
+   names, flag lists and addresses can always be read back *)
+Theorem C08_clean_is_strings_clean : forall f32txt n items e,
+  In (n, items) fixedstruct_render ->
+  items_clean f32txt items as_bytes_tail e = strings_clean f32txt items as_bytes_tail e.
+Proof. exact table_clean_is_strings_clean. Qed.
+Print Assumptions C08_clean_is_strings_clean.
+
+(* one record, one line: no newline inside a record's text unless one of its strings has one *)
+Theorem C08_record_is_one_line : forall f32txt n items e,
+  In (n, items) fixedstruct_render ->
+  (forall it, In it items -> needs_value it = true -> memN 10 (item_text f32txt it e) = false) ->
+  memN 10 (flat_map (fun it => item_text f32txt it e) items) = false.
+Proof. exact table_record_is_one_line. Qed.
+Print Assumptions C08_record_is_one_line.
+
+(* recorded findings of the rendering, as witnesses *)
+Theorem C08_ss_newline_refuted :
+  length nb32_utmpx_ss = 516%nat /\
+  memN 10 (flat_map (fun it => item_text f32_int_text it nb32_utmpx_ss) nb32_items) = true /\
+  item_text f32_int_text (RCstr 336 128 false) nb32_utmpx_ss = [16; 2; 195; 80; 10].
+Proof. exact ss_newline_refuted. Qed.
+Print Assumptions C08_ss_newline_refuted.
+
+(* regression statement about set_buffer_at_or_err_i8 as it was before commit b0611f28 (bytes >= 0x80
+   of a c_char string printed as NUL); the current code prints the field's own bytes *)
+Theorem C08_high_byte_printed_as_nul_refuted :
+  exists off w e, cstr_text_old off w true e <> take_cstr (slice off w e)
+                  /\ cstr_text_old off w true e = [106; 0; 0; 114; 103; 101; 110]
+                  /\ take_cstr (slice off w e) = [106; 195; 188; 114; 103; 101; 110]
+                  /\ cstr_text off w true e = [106; 195; 188; 114; 103; 101; 110].
+Proof. exact high_byte_printed_as_nul_refuted. Qed.
+Print Assumptions C08_high_byte_printed_as_nul_refuted.
+
+Theorem C08_cstr_text_is_field_bytes : forall off w s e, cstr_text off w s e = take_cstr (slice off w e).
+Proof. exact cstr_text_is_field_bytes. Qed.
+Print Assumptions C08_cstr_text_is_field_bytes.
+
+(* ================================================================== layout detection *)
+(* score_file keeps the first candidate, in the order it meets them, that reaches the maximal
+   positive high score: exact characterisation *)
+Theorem C08_best_of_iff : forall l n s,
+  best_of l None 0%Z = (Some n, s) <->
+  exists l1 l2, l = l1 ++ (n, s) :: l2 /\ (0 < s)%Z /\
+                Forall (fun x : bytes * Z => (snd x < s)%Z) l1 /\ Forall (fun x : bytes * Z => (snd x <= s)%Z) l2.
+Proof. exact best_of_iff. Qed.
+Print Assumptions C08_best_of_iff.
+
+(* POSITIVE: a candidate whose high score is positive and strictly above every other candidate's
+   is chosen under every iteration order *)
+Theorem C08_score_file_order_independent : forall mem mx cands file l n s,
+  cand_scores mem mx cands file = Some l -> NoDup (map fst l) ->
+  In (n, s) l -> (0 < s)%Z -> (forall m t, In (m, t) l -> m <> n -> (t < s)%Z) ->
+  forall cands', Permutation cands cands' -> score_file mem mx cands' file = Some (Some n, s).
+Proof. exact score_file_order_independent. Qed.
+Print Assumptions C08_score_file_order_independent.
+
+(* ... in particular by the code as it is (candidates in ascending discriminant order) *)
+Theorem C08_detect_unique_maximum : forall mem kind file l n s,
+  cand_scores mem count_found_entries_max (candidate_set kind file) file = Some l ->
+  NoDup (map fst l) -> In (n, s) l -> (0 < s)%Z -> (forall m t, In (m, t) l -> m <> n -> (t < s)%Z) ->
+  detect mem kind file = Some (Some n, s).
+Proof. exact detect_unique_maximum. Qed.
+Print Assumptions C08_detect_unique_maximum.
+
+(* ... and for the unambiguous sizes (no other layout's entry size divides the file size), closed
+   reads and one plausible entry among the first COUNT_FOUND_ENTRIES_MAX convertible ones *)
+Theorem C08_detect_alone_plausible : forall mem kind file n sz items b e,
+  candidate_set kind file = [(n, sz, items, b)] ->
+  Forall (fun e => items_closed items e = true) (chunks (length file) (N.to_nat sz) file) ->
+  In e (take_conv count_found_entries_max (chunks (length file) (N.to_nat sz) file)) ->
+  plausible items e = true -> existsb is_time items = true ->
+  exists h, detect mem kind file = Some (Some n, h) /\ (20 <= h)%Z.
+Proof. exact detect_alone_plausible. Qed.
+Print Assumptions C08_detect_alone_plausible.
+
+Example C08_detect_alone_plausible_example :
+  candidate_set 2 lx86_lastlog_rec = [(s2b "Fs_Linux_x86_Lastlog", 292, items_of "Fs_Linux_x86_Lastlog", 15%Z)] /\
+  forallb (items_closed (items_of "Fs_Linux_x86_Lastlog")) (chunks (length lx86_lastlog_rec) 292 lx86_lastlog_rec) = true /\
+  take_conv count_found_entries_max (chunks (length lx86_lastlog_rec) 292 lx86_lastlog_rec) = [lx86_lastlog_rec] /\
+  plausible (items_of "Fs_Linux_x86_Lastlog") lx86_lastlog_rec = true /\
+  existsb is_time (items_of "Fs_Linux_x86_Lastlog") = true /\
+  detect no_mem 2 lx86_lastlog_rec = Some (Some (s2b "Fs_Linux_x86_Lastlog"), 77%Z).
+Proof. exact detect_alone_plausible_example. Qed.
+Print Assumptions C08_detect_alone_plausible_example.
+
+Example C08_detect_unique_maximum_example :
+  detect no_mem 5 ok_file = Some (Some (s2b "Fs_Netbsd_x8664_Utmpx"), 122%Z).
+Proof. exact detect_unique_maximum_example. Qed.
+Print Assumptions C08_detect_unique_maximum_example.
+
+(* REFUTED in general: with two candidates tied at the maximal score each of them is chosen under
+   some iteration order — the result is not a function of the candidate set (with the HashMap of
+   the code before commit a9566a30: not a function of the file) *)
+Theorem C08_score_file_tie_order_dependent : forall mem mx cands file l n1 n2 s,
+  cand_scores mem mx cands file = Some l ->
+  In (n1, s) l -> In (n2, s) l -> n1 <> n2 -> (0 < s)%Z -> (forall x, In x l -> (snd x <= s)%Z) ->
+  exists cands1 cands2, Permutation cands cands1 /\ Permutation cands cands2 /\
+    score_file mem mx cands1 file = Some (Some n1, s) /\ score_file mem mx cands2 file = Some (Some n2, s).
+Proof. exact score_file_tie_order_dependent. Qed.
+Print Assumptions C08_score_file_tie_order_dependent.
+
+(* the confusable class: a layout is displaced only by a candidate whose high score ties or exceeds
+   its own, and a layout is a candidate exactly when its entry size divides the file size *)
+Theorem C08_score_file_displaced : forall mem mx cands file l n s n' s',
+  cand_scores mem mx cands file = Some l -> In (n, s) l ->
+  score_file mem mx cands file = Some (Some n', s') -> n' <> n ->
+  In (n', s') l /\ (s <= s')%Z /\ (0 < s')%Z.
+Proof. exact score_file_displaced. Qed.
+Print Assumptions C08_score_file_displaced.
+
+Theorem C08_filesz_candidates_sound : forall layouts bonus_tbl try_all score_tbl bonus kind filesz n sz items b,
+  In (n, sz, items, b) (filesz_candidates layouts bonus_tbl try_all score_tbl bonus kind filesz) ->
+  filesz <> 0 /\ 0 < sz /\ filesz mod sz = 0 /\ In n try_all /\
+  find_size n layouts = Some sz /\ assoc n score_tbl = Some items /\
+  b = (if has_bonus kind n bonus_tbl then bonus else 0%Z).
+Proof. exact filesz_candidates_sound. Qed.
+Print Assumptions C08_filesz_candidates_sound.
+
+Theorem C08_filesz_candidates_complete : forall layouts bonus_tbl try_all score_tbl bonus kind filesz n sz items,
+  filesz <> 0 -> In n try_all -> find_size n layouts = Some sz -> assoc n score_tbl = Some items ->
+  0 < sz -> filesz mod sz = 0 ->
+  In (n, sz, items, if has_bonus kind n bonus_tbl then bonus else 0%Z)
+     (filesz_candidates layouts bonus_tbl try_all score_tbl bonus kind filesz).
+Proof. exact filesz_candidates_complete. Qed.
+Print Assumptions C08_filesz_candidates_complete.
+
+Theorem C08_candidate_seq_perm : forall kind file, Permutation (candidate_set kind file) (candidate_seq kind file).
+Proof. exact candidate_seq_perm. Qed.
+Print Assumptions C08_candidate_seq_perm.
+
+(* recorded findings of the detection, as witnesses over the regenerated tables *)
+Theorem C08_layout_score_tie_refuted :
+  plausible (items_of "Fs_Netbsd_x8664_Utmpx") nb64_utmpx_rec = true /\
+  cand_scores no_mem count_found_entries_max (candidate_seq 5 tie_file) tie_file
+  = Some [(s2b "Fs_Netbsd_x8632_Utmpx", 122%Z); (s2b "Fs_Netbsd_x8664_Utmp", 0%Z); (s2b "Fs_Netbsd_x8664_Utmpx", 122%Z)] /\
+  detect no_mem 5 tie_file = Some (Some (s2b "Fs_Netbsd_x8632_Utmpx"), 122%Z) /\
+  score_file no_mem count_found_entries_max (rev (candidate_seq 5 tie_file)) tie_file
+  = Some (Some (s2b "Fs_Netbsd_x8664_Utmpx"), 122%Z).
+Proof. exact layout_score_tie_refuted. Qed.
+Print Assumptions C08_layout_score_tie_refuted.
+
+Theorem C08_lastlog_read_as_utmp_refuted :
+  plausible (items_of "Fs_Netbsd_x8664_Lastlog") nb64_lastlog_rec = true /\
+  forall cands', Permutation (candidate_set 2 ll_file) cands' ->
+    score_file no_mem count_found_entries_max cands' ll_file = Some (Some (s2b "Fs_Netbsd_x8664_Utmp"), 71%Z).
+Proof. exact lastlog_read_as_utmp_refuted. Qed.
+Print Assumptions C08_lastlog_read_as_utmp_refuted.
+
+(* the score of an entry is a function of the entry alone exactly when every scored string has a
+   NUL before the end of the struct (the CStr accessors read to the first NUL in memory) *)
+Theorem C08_score_entry_closed : forall items bonus e,
+  items_closed items e = true ->
+  (forall after, score_entry after items bonus e = score_entry [] items bonus e)
+  /\ score_entry [] items bonus e <> None.
+Proof. exact score_entry_closed. Qed.
+Print Assumptions C08_score_entry_closed.
+
+Theorem C08_score_entry_open_depends_on_memory : forall items bonus e,
+  items_closed items e = false ->
+  exists after1 after2 s1 s2,
+    score_entry after1 items bonus e = Some s1 /\ score_entry after2 items bonus e = Some s2 /\ s1 <> s2.
+Proof. exact score_entry_open_depends_on_memory. Qed.
+Print Assumptions C08_score_entry_open_depends_on_memory.
+
+Theorem C08_score_entry_none_iff : forall items bonus e,
+  score_entry [] items bonus e = None <-> items_closed items e = false.
+Proof. exact score_entry_none_iff. Qed.
+Print Assumptions C08_score_entry_none_iff.
+
+Theorem C08_score_reads_past_struct_end_refuted :
+  items_closed (items_of "Fs_Linux_x86_Lastlog") lx86_lastlog_full = false /\
+  score_entry [0] (items_of "Fs_Linux_x86_Lastlog") 15 lx86_lastlog_full = Some 549%Z /\
+  score_entry [65; 0] (items_of "Fs_Linux_x86_Lastlog") 15 lx86_lastlog_full = Some 551%Z.
+Proof. exact score_reads_past_struct_end_refuted. Qed.
+Print Assumptions C08_score_reads_past_struct_end_refuted.
+
+(* the plausibility the scoring rewards: printable strings without data after their NUL, NUL
+   terminated where checked, zero padding, a valid type / flags, a time within [2000, 2038]: such
+   an entry scores at least 20 + bonus, whatever lies behind the allocation ... *)
+Theorem C08_plausible_score_entry : forall items bonus e,
+  plausible items e = true -> existsb is_time items = true ->
+  forall aft, exists s, score_entry aft items bonus e = Some s /\ (20 <= s)%Z /\ (20 + bonus <= s)%Z.
+Proof. exact plausible_score_entry. Qed.
+Print Assumptions C08_plausible_score_entry.
+
+(* ... the high score of a candidate whose reads stay inside the struct is the maximum of 0 and the
+   scores of the first COUNT_FOUND_ENTRIES_MAX convertible entries ... *)
+Theorem C08_type_high_closed : forall mem mx size items bonus file,
+  Forall (fun e => items_closed items e = true) (chunks (length file) (N.to_nat size) file) ->
+  type_high mem mx size items bonus file
+  = Some (fold_left Z.max (map (sc items bonus) (take_conv mx (chunks (length file) (N.to_nat size) file))) 0%Z).
+Proof. exact type_high_closed. Qed.
+Print Assumptions C08_type_high_closed.
+
+(* ... so the layout a file was written in, with one plausible entry among them, has a positive
+   high score *)
+Theorem C08_type_high_plausible : forall mem mx size items bonus file e,
+  Forall (fun e => items_closed items e = true) (chunks (length file) (N.to_nat size) file) ->
+  In e (take_conv mx (chunks (length file) (N.to_nat size) file)) ->
+  plausible items e = true -> existsb is_time items = true ->
+  exists h, type_high mem mx size items bonus file = Some h /\ (20 <= h)%Z /\ (20 + bonus <= h)%Z.
+Proof. exact type_high_plausible. Qed.
+Print Assumptions C08_type_high_plausible.
+
+(* table obligations of the detection *)
+Theorem C08_filesz_guard_consts_are_sizes :
+  forallb (fun gt => match assoc (fst gt) filesz_guard_consts, find_size (snd gt) fixedstruct_layouts with
+                     | Some a, Some b => a =? b
+                     | _, _ => false
+                     end) filesz_guards = true.
+Proof. exact filesz_guard_consts_are_sizes. Qed.
+Print Assumptions C08_filesz_guard_consts_are_sizes.
+
+Theorem C08_score_rows_ok : forallb score_row_ok fixedstruct_score = true.
+Proof. exact score_rows_ok. Qed.
+Print Assumptions C08_score_rows_ok.
+
+Theorem C08_score_covers_layouts :
+  forallb (fun l => match assoc (l_name l) fixedstruct_score with Some _ => true | None => false end)
+          fixedstruct_layouts = true
+  /\ length fixedstruct_score = length fixedstruct_layouts.
+Proof. exact score_covers_layouts. Qed.
+Print Assumptions C08_score_covers_layouts.
+
+Theorem C08_candidate_order_is_the_layouts :
+  nodupb candidate_order = true /\ forallb (fun l => memb (l_name l) candidate_order) fixedstruct_layouts = true
+  /\ length candidate_order = length fixedstruct_layouts.
+Proof. exact candidate_order_is_the_layouts. Qed.
+Print Assumptions C08_candidate_order_is_the_layouts.
